@@ -737,6 +737,10 @@ func getLatestRefTipsFromRSLEntries(entries []rsl.Entry) map[string]githash.Hash
 			if _, has := refTips[entry.GetRefName()]; has {
 				continue
 			}
+
+			// A propagation entry records the reference's state like a
+			// reference entry does (and it cannot be skipped)
+			refTips[entry.GetRefName()] = entry.GetTargetID()
 		case *rsl.AnnotationEntry:
 			for _, referencedEntryID := range entry.RSLEntryIDs {
 				if _, has := annotationsMap[referencedEntryID.String()]; !has {
